@@ -98,7 +98,10 @@ fn lib_source(g: &mut Rng, session: bool) -> (String, Vec<String>) {
         ("visa", "{ a: 1, h:: 2, v::: 3, n: { x:: 1, y: lib.shallow } }".into()),
         ("visb", "{ a::: 10, h::: 20, v:: 30, extra: [lib.shallow] }".into()),
         ("visc", "{ a+: 1, h+:: 5, v+::: 6, n+: { z::: 2 } }".into()),
-        ("visd", "{ [k]:: k + \"!\" for k in [\"a\", \"zz\", \"extra\"] }".into()),
+        ("visd", "{ a:: 0, zz::: 0, extra:: 0 } + { [k]: k + \"!\" for k in [\"a\", \"zz\", \"extra\"] }".into()),
+        // a native function that fails for some arguments and succeeds for others
+        ("picky", "std.native(\"picky\")(lib.guarded.x)".into()),
+        ("picky2", "[std.native(\"picky\")(lib.shallow), std.native(\"picky\")(lib.shallow + 1)]".into()),
         // a nested evaluation whose failure the embedder swallows, while this field (and its object) is in flight
         ("trynat", "std.native(\"tryOther\")(lib.shallow + 6)".into()),
         ("tryobj", "{ assert std.native(\"tryOther\")(lib.shallow == 1) : \"tryobj\", q: lib.nested.inner.other }".into()),
@@ -128,8 +131,9 @@ fn client_source(g: &mut Rng, names: &[String], via: &str) -> String {
     let f = |g: &mut Rng| g.pick(names).clone();
     // object-typed library fields (those present in this library)
     let objs: Vec<String> = names.iter().filter(|n| matches!(n.as_str(), "visa" | "visb" | "visc" | "visd" | "guarded" | "checked" | "nested" | "comp" | "viasuper" | "halfbad" | "outer")).cloned().collect();
-    let fo = |g: &mut Rng| if objs.is_empty() { "nested".to_string() } else { g.pick(&objs).clone() };
-    match g.below(32) {
+    let vis: Vec<String> = objs.iter().filter(|n| n.starts_with("vis")).cloned().collect();
+    let fo = |g: &mut Rng| if !vis.is_empty() && g.chance(3, 5) { g.pick(&vis).clone() } else if objs.is_empty() { "nested".to_string() } else { g.pick(&objs).clone() };
+    match g.below(34) {
         0 => format!("{l}.{}", f(g)),
         1 => format!("local l = {l}; [l.{}, l.{}]", f(g), f(g)),
         2 => format!("local l = {l}; {{ a: l.{}, b: l.{} }}", f(g), f(g)),
@@ -163,6 +167,8 @@ fn client_source(g: &mut Rng, names: &[String], via: &str) -> String {
         28 => format!("local l = {l}; local s = l.{} + l.{}; [std.objectFieldsAll(s), std.objectFields(s + l.{}), s]", fo(g), fo(g), fo(g)),
         29 => format!("local l = {l}; [l.{a} + l.{b} == l.{b} + l.{a}, std.objectHasAll(l.{a} + l.{b}, \"h\"), std.objectHas(l.{b} + l.{a}, \"v\")]", a = fo(g), b = fo(g)),
         30 => format!("local l = {l}; {{ r: l.{} }} + {{ r+: l.{} }}", fo(g), fo(g)),
+        31 => format!("local l = {l}; [std.native(\"picky\")(l.shallow), l.{}]", f(g)),
+        32 => format!("local l = {l}; std.native(\"picky\")(l.guarded.x - 1) + l.{}", f(g)),
         25 => format!("local l = {l}; [std.native(\"tryOther\")(l.{}), l.{}]", f(g), f(g)),
         _ => format!("{l}"),
     }
@@ -687,6 +693,11 @@ pub fn judge(h: &History, run: &SharedRun, st: &mut JudgeStats) -> Option<Failur
         st.requests_compared += 1;
         let faulted = !op.fault.is_none();
         // probes
+        if matches!(&op.req, Req::Load(n) if n == "lib.libsonnet") {
+            // generator sanity: the shared library is meant to load (a library that does not parse makes every
+            // history trivial); the batch turns a non-zero count into a harness error
+            bump(&mut st.probes, if matches!(out, Out::Ok(_)) { "library_loaded_ok" } else { "library_failed_to_load" });
+        }
         if let Some(p) = res.thunk {
             let n = eval_count.entry(p).or_insert(0);
             *n += 1;
